@@ -53,11 +53,11 @@ def dis_cases(cpus, tier, seed):
             pats = sorted(set(rnd.sample(range(65536), 3000) + [0, 0xffff, 0x00ff, 0xff00, 0x8000, 0x0080]))
         for p in pats:
             if tier == "thorough":
-                fills = [FILLS[p % 3], "%028x" % rnd.getrandbits(112)]
+                fills = [FILLS[p % 3] if p % 4 else "%028x" % rnd.getrandbits(112)]
             else:
                 fills = [rnd.choice(FILLS + ["%028x" % rnd.getrandbits(112)])]
             for fi, f in enumerate(fills):
-                addr = 0 if (p + fi) % 2 == 0 else 0x1000
+                addr = 0 if ((p >> 3) + fi) % 2 == 0 else 0x1000
                 cases.append(("%s.%04x.%d" % (cpu["name"], p, fi), "kind=dis cpu=%s addr=%d" % (cpu["name"], addr),
                               "%04x%s" % (p, f)))
     return cases
@@ -88,13 +88,14 @@ def shape(text):
     return txt[:80]
 
 
-def run_dis(chk, tier, seed, want):
-    """runs the decode-first pipeline; returns (cases, obs by id, verdicts for properties in `want`)"""
+def run_dis(chk, tier, seed, want, only=None, tag="dis"):
+    """runs the decode-first pipeline for the CPUs in `only` (all when None)"""
     vdir = C.ensure_build("rel")
     cpus = cpu_list(vdir)
     by_name = {c["name"]: c for c in cpus}
-    cases = dis_cases(cpus, tier, seed)
-    obs = C.conform_parallel(vdir, "codec", cases, chk.rundir, "dis", 5, nproc=C.NCPU)
+    sel = [c for c in cpus if only is None or c["name"] in only]
+    cases = dis_cases(sel, tier, seed + (hash(tuple(sorted(only))) % 1000 if only else 0))
+    obs = C.conform_parallel(vdir, "codec", cases, chk.rundir, tag, 5, nproc=C.NCPU)
     byid = {o["case"]: o for o in obs}
     if len(byid) != len(cases):
         raise C.InfraError("conform returned %d of %d" % (len(byid), len(cases)))
@@ -109,3 +110,55 @@ def run_dis(chk, tier, seed, want):
             continue
         events.append(dis_event(o, by_name))
     return cpus, cases, byid, events, died
+
+
+# ---------------------------------------------------------------------------
+# encode-first side (C01, C06)
+# ---------------------------------------------------------------------------
+
+def corpus(cpu_names):
+    """instruction texts of tests/comparison/*.txt, read from /repo at run time"""
+    out = []
+    d = os.path.join(C.REPO, "tests", "comparison")
+    for f in sorted(os.listdir(d)):
+        if not f.endswith(".txt"):
+            continue
+        cpu = f[:-4]
+        if cpu not in cpu_names:
+            continue
+        for line in open(os.path.join(d, f), errors="replace"):
+            if "|" not in line:
+                continue
+            text = line.split("|")[0].strip()
+            if text and "\t" not in text and len(text) < 100:
+                out.append((cpu, text))
+    return out
+
+
+def enc_event(o, by_name):
+    cpu = o["cpu"]
+    base = None
+    walk = []
+    for s in o.get("walk", []):
+        if base is None:
+            base = s["a"]
+        walk.append({"off": s["a"] - base, "len": s["len"], "racc": s["racc"], "rb": list(bytes.fromhex(s["rb"]))})
+    return {"id": o["case"], "kind": "enc", "cpu": cpu, "unit": by_name[cpu]["bpa"], "acc": o["acc"],
+            "b": list(bytes.fromhex(o["b"])), "walk": walk}
+
+
+NUM = re.compile(r"(?<![A-Za-z0-9_.$%@'])(0x[0-9a-fA-F]+|\d+)(?![A-Za-z0-9_'])")
+
+
+def probe_texts(text, probes):
+    """for each numeric operand position of `text`: the texts with that number replaced by each probe value"""
+    out = []
+    ms = list(NUM.finditer(text))
+    for pi, m in enumerate(ms[:2]):
+        s, e = m.span()
+        pre = text[:s]
+        # a sign directly in front of the number belongs to it
+        if pre.rstrip().endswith("-") and (len(pre.rstrip()) == 1 or pre.rstrip()[-2] in ",(#[ +"):
+            pre = pre.rstrip()[:-1]
+        out.append((pi, [pre + str(v) + text[e:] for v in probes]))
+    return out
